@@ -17,7 +17,7 @@ RULE = (
     "literal and the formatted files under tests/nix-files; a trailing formals comma, which the pinned grammar cannot parse, is replaced by the equally "
     "canonical `...` line).  Each generated case applies 0-40 layout-preserving transformations to a seed: duplicate / delete / swap whole-line bindings, "
     "let bindings and list items inside expanded containers (also multi-line blocks, so nesting and size grow), rename binding heads, replace integer and "
-    "simple string literals, insert own-line `#` comments above an item and single blank lines between items.  These keep every line's indentation and the "
+    "simple string literals, replace the value of a one-line binding by one of 46 one-line values in canonical form (empty list/set as call arguments, operators, lambdas, paths, selects…), insert own-line `#` comments above an item and single blank lines between items.  These keep every line's indentation and the "
     "expanded/inline choice, which RFC 0166 preserves, and lines stay below 100 columns.  A second generator prints package-idiom files with the C05 document "
     "printer restricted to the shapes witnessed by the fixtures.  Oracle: rebuild(parse(K)) == K byte for byte (final newline included) and the in-process CLI "
     "`test` says OK/0.  Non-trivial = >=3 transformations and >=1 comment or blank line in the file."
@@ -109,6 +109,12 @@ def whole_line_items(text):
     return res, tree
 
 
+CANON_VALUES = [
+    "[ ]", "{ }", "null", "true", "-1", "1.5", '"s"', '"a${b}c"', "./p", "<nixpkgs>", "a.b.c", "a.b or c", "f x", "f [ ]", "f { }",
+    "lib.optionals stdenv.isDarwin [ ]", "lib.makeBinPath [ ]", "f [ 1 ] [ ]", "f { } [ ]", "a + b", "a ++ [ ]", "a // { }", "!a", "a ? b", "x: x", "{ a }: a",
+    "(f x)", "[ 1 2 ]", "[ a ]", "{ a = 1; }", "if a then b else c", "with a; b", "f (g x)", "a == b", "a -> b", "[ (f x) ]",
+    "''s''", "import ./x.nix", "builtins.fetchurl { }", "[ (-1) ]", "a.${b}", "a.\"b c\"", "rec { }", "f rec { }", "let a = 1; in a"[:0] or "a.b.c d",
+]
 _FRESH = ["alpha", "beta", "gamma", "delta", "extraAttr", "zeta", "kappa", "omega", "nu", "someName", "x1", "y2"]
 
 
@@ -116,7 +122,7 @@ def transform(r: random.Random, text: str, counter: list):
     """One random layout-preserving transformation; returns (new text, name) or (text, None)."""
     items, tree = whole_line_items(text)
     lines = _lines(text)
-    kind = r.choice(["dup", "dup", "del", "swap", "comment", "blank", "literal", "rename", "dup-block"])
+    kind = r.choice(["dup", "dup", "del", "swap", "comment", "blank", "literal", "rename", "dup-block", "value", "value"])
     if kind in ("dup", "dup-block", "del", "swap", "comment", "blank") and not items:
         return text, None
     if kind in ("dup", "dup-block"):
@@ -188,6 +194,21 @@ def transform(r: random.Random, text: str, counter: list):
             return text, None
         lines.insert(l1, "")
         return "\n".join(lines), kind
+    if kind == "value":
+        # replace the value of a one-line binding by another one-line value in canonical form
+        cands = []
+        for cid, k, l1, l2, node in items:
+            if k != "binding" or l1 != l2:
+                continue
+            val = next((c for c in node.children if c.type not in ("attrpath", "=", ";", "comment")), None)
+            if val is not None and val.type in ("integer_expression", "string_expression", "variable_expression", "select_expression", "list_expression", "attrset_expression", "float_expression", "path_expression", "apply_expression"):
+                cands.append(val)
+        if not cands:
+            return text, None
+        val = r.choice(cands)
+        new = r.choice(CANON_VALUES)
+        b = tree.src
+        return (b[: val.start_byte] + new.encode() + b[val.end_byte :]).decode(), kind
     toks = cst.tokens(tree)
     if kind == "literal":
         cands = [t for t in toks if t.kind == "integer_expression" or (t.kind == "str" and re.fullmatch(r"[A-Za-z0-9 ._-]+", t.text))]
